@@ -1,8 +1,5 @@
 SPECIFICATION Spec
-CONSTANTS NVars = 2
- MaxLen = 2
- MaxClauses = 6
- Shape = "set"
+CONSTANT Parts <- PartsQuick
 INVARIANT ResolutionSound
 INVARIANT RefutationComplete
 INVARIANT CertificateAccepted
